@@ -10,6 +10,7 @@ import AkdModel.Cfg
 import AkdModel.Show
 import AkdModel.Adv
 import AkdModel.Spec
+import AkdModel.Store
 open Akd Akd.Wire
 
 structure DState where
@@ -20,6 +21,7 @@ structure DState where
   /-- every batch handed to publish, accepted or not (the specification decides) -/
   hist : List (List (Bytes × Bytes)) := []
   cuts : Spec.Cuts := []
+  store : Store.State := {}
 
 def parsePairs : List String → Option (List (Bytes × Bytes))
   | [] => some []
@@ -79,6 +81,76 @@ def curRoot (st : DState) : Except Err Dig :=
   | some a => st.dir.nodes.rootHash st.cfg a
   | none => .error .notFound
 
+namespace StIO
+open Akd.Store
+
+def parseKey? (s : String) : Option Key :=
+  match s.splitOn ":" with
+  | ["azks"] => some .azks
+  | ["node", id] => id.toNat?.map .node
+  | ["vs", u, e] => do pure (.vs (← u.toNat?) (← e.toNat?))
+  | _ => none
+
+def parseRec? (s : String) : Option Rec :=
+  match s.splitOn ":" with
+  | ["azks", n, e] => do pure ⟨.azks, ← n.toNat?, ← e.toNat?⟩
+  | ["node", id, v, p] => do pure ⟨.node (← id.toNat?), ← v.toNat?, ← p.toNat?⟩
+  | ["vs", u, e, v, p] => do pure ⟨.vs (← u.toNat?) (← e.toNat?), ← v.toNat?, ← p.toNat?⟩
+  | _ => none
+
+def parseFlag? (s : String) : Option Flag :=
+  match s.splitOn ":" with
+  | ["max"] => some .maxEpoch
+  | ["min"] => some .minEpoch
+  | ["ver", v] => v.toNat?.map .specificVersion
+  | ["ep", e] => e.toNat?.map .specificEpoch
+  | ["leq", e] => e.toNat?.map .leqEpoch
+  | _ => none
+
+def showRec (r : Rec) : String :=
+  match r.key with
+  | .azks => s!"azks:{r.version}:{r.payload}"
+  | .node id => s!"node:{id}:{r.version}:{r.payload}"
+  | .vs u e => s!"vs:{u}:{e}:{r.version}:{r.payload}"
+
+def showMany (xs : List String) : String :=
+  "[" ++ ",".intercalate (Show.sortStrings xs.eraseDups) ++ "]"
+
+def showObs : Obs → String
+  | .ok => "ok"
+  | .err => "err"
+  | .bool b => toString b
+  | .one (some r) => showRec r
+  | .one none => "none"
+  | .recs rs => showMany (rs.map showRec)
+  | .versions vs => showMany (vs.map fun (u, v, p) => s!"{u}:{v}:{p}")
+  | .count n => s!"n{n}"
+
+def parseFail? (s : String) : Option Bool :=
+  if s == "0" then some false else if s == "1" then some true else none
+
+/-- every key the model's cache may hold (for `st.sleep` = everything expires) -/
+def allCacheKeys (s : State) : List Key := s.cache.map (·.key)
+
+def parseOp? (st : State) : List String → Option Op
+  | ["st.set", r, f] => do pure (.set (← parseRec? r) (← parseFail? f))
+  | "st.batchset" :: f :: rs => do pure (.batchSet (← rs.mapM parseRec?) (← parseFail? f))
+  | ["st.get", k, f] => do pure (.get (← parseKey? k) (← parseFail? f))
+  | ["st.getdirect", k, f] => do pure (.getDirect (← parseKey? k) (← parseFail? f))
+  | "st.batchget" :: f :: ks => do pure (.batchGet (← ks.mapM parseKey?) (← parseFail? f))
+  | ["st.begin"] => some .begin
+  | ["st.commit", f] => do pure (.commit (← parseFail? f))
+  | ["st.rollback"] => some .rollback
+  | ["st.flush"] => some .flush
+  | ["st.sleep"] => some (.evict (allCacheKeys st))
+  | ["st.userstate", u, fl, f] => do pure (.userState (← u.toNat?) (← parseFlag? fl) (← parseFail? f))
+  | ["st.userdata", u, f] => do pure (.userData (← u.toNat?) (← parseFail? f))
+  | "st.userversions" :: fl :: f :: us => do pure (.userVersions (← us.mapM (·.toNat?)) (← parseFlag? fl) (← parseFail? f))
+  | ["st.tombstone", u, e, f] => do pure (.tombstone (← u.toNat?) (← e.toNat?) (← parseFail? f))
+  | _ => none
+
+end StIO
+
 /-- operations of the layers above L0 -/
 def stepL1 (st : DState) (toks : List String) : Option (DState × String) :=
   let c := st.cfg
@@ -92,6 +164,21 @@ def stepL1 (st : DState) (toks : List String) : Option (DState × String) :=
         | none => []
       some ({ cfg := c, dir := d, roots := r }, "ok")
     | .error _ => some (st, "err")
+  | ["fx.reset", cfg, _, _] => do
+    let c ← Cfg.ofName? cfg
+    match Dir.init c {} with
+    | .ok d => some ({ cfg := c, dir := d, roots := [] }, "ok")
+    | .error _ => some (st, "err")
+  | "fx.publish" :: rest => do
+    let ps ← parsePairs rest
+    match st.dir.publish c ps with
+    | .ok (d, ep, h) => some ({ st with dir := d }, s!"ok {ep} {Show.dig h}")
+    | .error .vrfMissing => some (st, "vrf-missing")
+    | .error _ => some (st, "err")
+  | "fx.enum" :: rest => do
+    -- the theorem (`publish_fail_no_effect`): no fault index is observable
+    let _ ← parsePairs rest
+    some (st, "violations=0")
   | ["ck", k] => do
     let k ← parseHex? k
     some ({ st with dir := { st.dir with commitmentKey := .hBytes k } }, "ok")
@@ -179,6 +266,10 @@ def stepL1 (st : DState) (toks : List String) : Option (DState × String) :=
     else match Spec.historyTomb sp st.cuts u p allow with
       | some vs => some (st, "ok " ++ " ".intercalate (vs.map fun v => s!"({v.epoch},{v.version},{hexOfBytes v.value})"))
       | none => some (st, "rej")
+  | ["st.reset", mode] =>
+    some ({ st with store := { hasCache := mode != "nocache" } }, "ok")
+  | ["st.active"] => some (st, toString st.store.active)
+  | ["st.dbdump"] => some (st, StIO.showMany (st.store.db.map StIO.showRec))
   | "azks.insert" :: mode :: rest => do
     let m ← if mode == "dir" then some InsertMode.directory else if mode == "aud" then some InsertMode.auditor else none
     let els ← parseElems rest
@@ -213,7 +304,12 @@ def stepL1 (st : DState) (toks : List String) : Option (DState × String) :=
       let p := es.foldl (Adv.applyNonMem c (rootValue st)) p
       some (st, if verifyNonMembership c root p then "acc" else "rej")
     | _, _ => some (st, "err")
-  | _ => none
+  | toks =>
+    match StIO.parseOp? st.store toks with
+    | some op =>
+      let (s', obs) := Store.step Store.fixed st.store op
+      some ({ st with store := s' }, StIO.showObs obs)
+    | none => none
 
 def parseLabels (toks : List String) : Option (List NodeLabel) :=
   toks.mapM parseLabel?
